@@ -82,9 +82,39 @@ Theorem C06_elements_by_tag_name :
 Proof. exact by_tag_spec_b. Qed.
 Print Assumptions C06_elements_by_tag_name.
 
-(* M5, Spec side: the normalized tree has the same text, no two adjacent text children anywhere, and normalizing it
-   again changes nothing.  (That the tree below p after Node.normalize IS [norm_tree] of the tree before is checked on
-   every normalize step of every run -- [normalize_conforms], evaluated by the extracted Model -- not proved.) *)
+(* M5: Node.normalize on the heap is [norm_tree] (merge every run of adjacent text children, recursively) on the tree:
+   for every consistent heap and every element/document receiver the call returns, the tree below the receiver -- seen
+   to any depth F that covers it -- is the normalized tree of before, no child list outside the receiver's subtree
+   changes (M1 adds: the invariant is kept), and the check the extracted Model evaluates on every run is true. *)
+Theorem C06_normalize_refines :
+  forall (h : heap) (p : nat), wf_b h = true -> adm_op h (ONormalize p) = true ->
+    let h' := fst (step h (ONormalize p)) in
+    snd (step h (ONormalize p)) = ROk None /\
+    (forall F, (forall d, deep h p d -> d < F) -> shape F h' p = norm_tree (shape F h p)) /\
+    (forall m, m < length h -> ~ In p (chain (length h) h m) -> children h' m = children h m) /\
+    normalize_conforms h h' p = true.
+Proof. exact normalize_refines. Qed.
+Print Assumptions C06_normalize_refines.
+
+(* the fuel the Model gives itself ([S (length h)] in [step]) always suffices: never the out-of-fuel outcome *)
+Theorem C06_normalize_fuel :
+  forall (h : heap) (p : nat), wf_b h = true -> adm_op h (ONormalize p) = true ->
+    snd (step h (ONormalize p)) <> RFuel.
+Proof. exact normalize_fuel. Qed.
+Print Assumptions C06_normalize_fuel.
+
+(* lifted to histories: a normalize step after any admissible history *)
+Theorem C06_history_normalize_refines :
+  forall (ops : list op) (p : nat), forallb covered ops = true -> adm_hist [] (ops ++ [ONormalize p]) = true ->
+    let h := run [] ops in let h' := fst (step h (ONormalize p)) in
+    snd (step h (ONormalize p)) = ROk None /\
+    (forall F, (forall d, deep h p d -> d < F) -> shape F h' p = norm_tree (shape F h p)) /\
+    (forall m, m < length h -> ~ In p (chain (length h) h m) -> children h' m = children h m).
+Proof. exact history_normalize_refines. Qed.
+Print Assumptions C06_history_normalize_refines.
+
+(* and what the normalized tree is good for: it has the same text, no two adjacent text children anywhere, and
+   normalizing it again changes nothing *)
 Theorem C06_norm_tree_text : forall t : tree, tree_text (norm_tree t) = tree_text t.
 Proof. exact norm_tree_text. Qed.
 Theorem C06_norm_tree_no_adjacent : forall t : tree, no_adjacent (norm_tree t) = true.
